@@ -7,8 +7,8 @@ Theorem reopen_loads_writer_metadata es :
   blen (ser_entries es) < 4294967296 ->
   table_meta (reopen (write_table es)) = table_meta (write_table es).
 Proof.
-  intros H. unfold table_meta at 1. cbn [reopen t_meta].
-  change (mkT _ _ _ _ _ _ _ None) with (reopen (write_table es)).
+  intros H. unfold table_meta at 1.
+  change (t_meta (reopen (write_table es))) with (@None (bloom * list N)). cbv iota.
   rewrite (load_footer_write_table es H (bloom_of_decode_encode es)). reflexivity.
 Qed.
 
@@ -26,3 +26,13 @@ Proof.
   intros Hok H. rewrite <- (table_scan_is_filter es p Hok).
   unfold table_scan_prefix. rewrite (reopen_loads_writer_metadata es H), body_of_reopen. reflexivity.
 Qed.
+
+(* the descriptor round trip (Document, JSON, NewTableFromDocument) keeps the file, the sizes and the key range *)
+Theorem reopen_keeps_descriptor t :
+  document (reopen t) = document t /\ t_file (reopen t) = t_file t /\
+  t_start (reopen t) = t_start t /\ t_end (reopen t) = t_end t.
+Proof. repeat split. Qed.
+
+Theorem reopen_range_is_first_last es :
+  t_start (reopen (write_table es)) = first_key es /\ t_end (reopen (write_table es)) = last_key es.
+Proof. split; reflexivity. Qed.
